@@ -24,6 +24,10 @@ pub trait IterManager {
     fn set_prod_alive(&self, alive: bool);
     fn set_work_alive(&self, alive: bool);
     fn set_cons_alive(&self, alive: bool);
+
+    /// Unregisters one iterator; returns `true` if it was the last one alive.
+    /// The caller must not access the buffer afterwards, unless `true` is returned.
+    fn release_iter(&self) -> bool;
 }
 
 /// Trait used to manage storage.
